@@ -6,6 +6,7 @@ pub mod c09;
 pub mod c10;
 pub mod c11;
 pub mod c16;
+pub mod c17;
 pub mod c18;
 pub mod walkprops;
 
@@ -20,6 +21,7 @@ pub fn run(a: &Args) -> i32 {
         "C10" => c10::run(a),
         "C11" => c11::run(a),
         "C16" => c16::run(a),
+        "C17" => c17::run(a),
         "C18" => c18::run(a),
         other => {
             eprintln!("MACHINERY-ERROR: no check registered for {}", other);
@@ -52,6 +54,7 @@ pub fn replay(file: &str) -> i32 {
         "C10" => c10::replay(&v),
         "C11" => c11::replay(&v),
         "C16" => c16::replay(&v),
+        "C17" => c17::replay(&v),
         "C18" => c18::replay(&v),
         other => {
             eprintln!("MACHINERY-ERROR: no replay registered for {}", other);
